@@ -397,6 +397,8 @@ func configs() []cfg {
 	cs := []cfg{
 		{A("m0e0"), 1, false, 0, false}, {A("e0m0"), 1, false, 0, false}, {A("m0m0"), 0, false, 0, false}, {A("e0e0"), 0, true, 0, false}, {A("m0e1"), 0, false, 0, false},
 		{A("e0m2"), 0, true, 0, false},
+		// two events of one source parked (items 2, hosts 1) while the numbers are read
+		{A("e0e0"), 1, false, 2, true},
 	}
 	if vrt.Thorough() {
 		cs = append(cs, cfg{A("e0m0"), 2, false, 0, false}, cfg{A("m0m1e0"), 0, false, 0, false}, cfg{A("e0e1m0"), 1, true, 0, false}, cfg{A("m0e0m0"), 2, false, 0, false}, cfg{A("e0m0e0"), 2, true, 0, false}, cfg{A("m0e0m1e1"), 1, false, 0, false}, cfg{A("m0m0e0e0"), 1, true, 0, false}, cfg{A("e0m0m1"), 2, true, 0, false}, cfg{A("m0e0e1m2"), 1, true, 0, false}, cfg{A("m0m0m0m0"), 0, false, 2, true},
